@@ -117,6 +117,83 @@ def build(case, rs, frame_kind, required=False):
     return lambda: MProcess(c, [hs0.copy(), hs1.copy()], is_physicality_required=required)
 
 
+def generic_bases(chk):
+    """The basis-generic branches: unnormalised Pauli basis, orthonormal Hermitian basis whose first element is
+    not the identity, computational basis.  Maps are given by Kraus operators; a map scaled by (1 + t) violates
+    trace preservation by t * max|Tr B| on the basis elements that have a trace."""
+    from quara.objects.matrix_basis import get_pauli_basis, get_normalized_pauli_basis, get_comp_basis, MatrixBasis
+    from quara.objects.elemental_system import ElementalSystem
+    from quara.objects.composite_system import CompositeSystem
+    from quara.objects.state import State
+    from quara.objects.gate import Gate
+    nb = get_normalized_pauli_basis()
+    bases = {"unnormalised": get_pauli_basis(), "identity_not_first": MatrixBasis([nb[1], nb[2], nb[3], nb[0]]), "computational": get_comp_basis()}
+    g = 0.36
+    h = np.array([[1, 1], [1, -1]]) / np.sqrt(2)
+    ad = [np.array([[1, 0], [0, np.sqrt(1 - g)]]), np.array([[0, np.sqrt(g)], [0, 0]])]
+    paulis = [np.eye(2), np.array([[0, 1], [1, 0]]), np.array([[0, -1j], [1j, 0]]), np.array([[1, 0], [0, -1]])]
+    maps = {
+        "unitary": ([(1.0, h)], True),
+        "amplitude_damping": ([(1.0, k) for k in ad], True),                       # trace preserving, not unital
+        "amplitude_damping_adjoint": ([(1.0, k.conj().T) for k in ad], False),     # unital, not trace preserving (O(1))
+        "depolarising": ([(0.7, paulis[0])] + [(0.1, p_) for p_ in paulis[1:]], True),
+    }
+    k = 8
+    atol = 10.0 ** (-k)
+    for bname, basis in bases.items():
+        c = CompositeSystem([ElementalSystem(0, basis)])
+        B = [np.asarray(x.toarray() if hasattr(x, "toarray") else x, dtype=np.complex128) for x in c.basis()]
+        gram = np.array([[np.trace(a.conj().T @ b) for b in B] for a in B])
+        tr_scale = max(abs(np.trace(b)) for b in B)
+
+        def hs_of(kw, scale):
+            hs = np.zeros((4, 4), dtype=np.complex128)
+            for j, b in enumerate(B):
+                img = scale * sum(p_ * (K @ b @ K.conj().T) for p_, K in kw)
+                hs[:, j] = np.linalg.solve(gram, np.array([np.trace(a.conj().T @ img) for a in B]))
+            return hs
+        for mname, (kw, tp) in maps.items():
+            for rel in (0.0, 0.5, 0.8, 1.2, 2.0, 10.0, 1e6):
+                t = rel * atol / tr_scale
+                hs = hs_of(kw, 1.0 + t)
+                if np.max(np.abs(hs.imag)) > 1e-12:
+                    continue      # complex HS entries: not representable in this basis
+                hs = hs.real.astype(np.float64)
+                expect = None if 0.9 < rel < 1.1 else (tp and rel <= 0.9)
+                tag = "%s:%s:rel%g" % (bname, mname, rel)
+                chk.count(1, ("generic", tag))
+                try:
+                    gt = Gate(c, hs.copy(), is_physicality_required=False)
+                    got = bool(gt.is_tp(atol))
+                    got2 = bool(gt.is_eq_constraint_satisfied(atol))
+                except Exception as e:
+                    chk.violation("generic_basis:exception:%s" % bname, "%r [%s]" % (e, tag), dict(tag=tag))
+                    continue
+                if expect is not None and (got != expect or got2 != expect):
+                    chk.violation("generic_basis:is_tp:%s:%s" % (bname, "tp_map" if tp else "non_tp_map"),
+                                  "trace-preservation verdict %s / %s, definition says %s [%s]" % (got, got2, expect, tag), dict(tag=tag))
+                if expect is not None and rel in (0.0, 1e6):
+                    try:
+                        Gate(c, hs.copy(), is_physicality_required=True)
+                        made = True
+                    except ValueError:
+                        made = False
+                    if made != expect:
+                        chk.violation("generic_basis:construct:%s" % bname, "constructor with physicality required %s, expected %s [%s]" % (made, expect, tag), dict(tag=tag))
+        # states on the Hermitian generic bases: trace and positivity
+        if bname != "computational":
+            for lam, tr_ok, psd_ok in (((0.7, 0.3), True, True), ((1.0, 0.0), True, True), ((0.7, 0.3 + 5e-9), True, True), ((0.7, 0.3 + 2e-8), False, True),
+                                       ((1.0 + 2e-8, -2e-8), True, False), ((1.0 + 5e-9, -5e-9), True, True)):
+                U = spectral.haar(2, np.random.RandomState(3))
+                rho = (U * np.array(lam)) @ U.conj().T
+                vec = np.linalg.solve(gram, np.array([np.trace(a.conj().T @ rho) for a in B])).real
+                st = State(c, vec.astype(np.float64), is_physicality_required=False)
+                chk.count(1, ("generic-state", bname, lam))
+                if bool(st.is_eq_constraint_satisfied(atol)) != tr_ok or bool(st.is_ineq_constraint_satisfied(atol)) != psd_ok:
+                    chk.violation("generic_basis:state:%s" % bname, "state verdicts (%s, %s) for spectrum %s at atol 1e-8, definition (%s, %s)" % (
+                        st.is_eq_constraint_satisfied(atol), st.is_ineq_constraint_satisfied(atol), lam, tr_ok, psd_ok), dict(basis=bname, lam=lam))
+
+
 def run(chk):
     from quara.settings import Settings
     rs = np.random.RandomState(chk.seed % (2 ** 31))
@@ -199,6 +276,7 @@ def run(chk):
                 chk.sample(case)
     finally:
         Settings.set_atol(default_atol)
+    generic_bases(chk)
     chk.assumptions += [
         "guard band: verdicts are unconstrained for deviations between 0.9 and 1.1 atol",
         "deviations are scalars (trace, multiple of identity, one HS entry, one eigenvalue) so every norm gives the same magnitude",
